@@ -12,7 +12,11 @@ BASE = {
            "model": "Rec: !record\n  fields:\n    a: int\n    b: Imp1.T1\nP: !protocol\n  sequence:\n    r: Rec\n    s: !stream\n      items: Rec\n"},
     "v0imp": {"ns": "Imp1", "imports": ["../imp2"], "model": "T1: !record\n  fields:\n    x: Imp2.T2\n"},
 }
-LOC_DIR = {"main": "main", "import1": "imp1", "import2": "imp2", "version": "v0", "version_import": "v0imp"}
+BASE2 = {   # a second listed version (nver = 2)
+    "v1": {"ns": "Main", "imports": ["../v1imp"], "model": BASE["v0"]["model"]},
+    "v1imp": {"ns": "Imp1", "imports": ["../imp2"], "model": BASE["v0imp"]["model"]},
+}
+LOC_DIR = {"main": "main", "import1": "imp1", "import2": "imp2", "version": "v0", "version_import": "v0imp", "version2": "v1", "version2_import": "v1imp"}
 OUT_KEYS = {"cpp": "sourcesOutputDir", "python": "outputDir", "json": "outputDir", "matlab": "outputDir"}
 
 
@@ -21,11 +25,18 @@ def out_dirs(root, targets, inside):
     return {t: os.path.join(base, t) for t in targets}
 
 
-def write_project(root, targets, inside=False, loc="none", kind="semantic", extra_main_model="", uses=True):
+def write_project(root, targets, inside=False, loc="none", kind="semantic", extra_main_model="", uses=True, nver=1):
     """Write the project tree; returns (cwd for yardl, extra CLI args)."""
     shutil.rmtree(os.path.join(root, "main"), ignore_errors=True)
     args = []
-    for d, spec in BASE.items():
+    base = dict(BASE)
+    if nver == 2:
+        base.update(BASE2)
+        base["main"] = dict(BASE["main"], versions={"v0": "../v0", "v1": "../v1"})
+    else:
+        for d in BASE2:
+            shutil.rmtree(os.path.join(root, d), ignore_errors=True)
+    for d, spec in base.items():
         pd = os.path.join(root, d)
         for f in (os.listdir(pd) if os.path.isdir(pd) else []):
             if f.endswith(".yml"):
@@ -64,6 +75,9 @@ def write_project(root, targets, inside=False, loc="none", kind="semantic", extr
             else:
                 model += "Broken: !record\n  fieldz:\n    z: int\n"
         if loc == "evolution" and d == "main":
+            model = model.replace("    a: int\n", "    a: int*\n", 1)
+        # two listed versions: the current model agrees with one of them and is incompatible with the other
+        if (loc == "evolution_first" and d in ("main", "v1")) or (loc == "evolution_last" and d in ("main", "v0")):
             model = model.replace("    a: int\n", "    a: int*\n", 1)
         open(os.path.join(pd, "_package.yml"), "w").write(man)
         open(os.path.join(pd, "model.yml"), "w").write(model)
